@@ -70,6 +70,10 @@ def upgrad_weights(J, u, norm_eps, reg_eps):
 def min_norm_point(G: np.ndarray) -> tuple[np.ndarray, float]:
     """argmin / min of a^T G a over the simplex by support enumeration (m <= 10), G PSD.  Returns (alpha, rho^2)."""
     m = G.shape[0]
+    gmax = float(np.abs(G).max())
+    if gmax == 0:
+        return np.ones(m) / m, 0.0
+    G_orig, G = G, G / gmax  # scale invariance: solve on the normalised Gramian
     best, best_val = None, np.inf
     for r in range(1, m + 1):
         for S in itertools.combinations(range(m), r):
@@ -89,7 +93,7 @@ def min_norm_point(G: np.ndarray) -> tuple[np.ndarray, float]:
                 val = float(full @ G @ full)
                 if val < best_val:
                     best, best_val = full, val
-    return best, max(best_val, 0.0)
+    return best, max(float(best @ G_orig @ best), 0.0)
 
 
 def simplex_gap(G, alpha):
